@@ -53,7 +53,7 @@ impl DebugServer {
         self.thread = Some(std::thread::spawn(move || {
             while !thread_shutdown.load(Ordering::Relaxed) {
                 let mut dbg = DebugSession::new(lsp.clone(), port);
-                match dbg.start() {
+                match dbg.start(&thread_shutdown) {
                     Ok(_) => (),
                     Err(e) => {
                         log::debug!("Could not start DebugSession: {:?}", e);
@@ -66,6 +66,9 @@ impl DebugServer {
 
     pub fn join(self) -> MosResult<()> {
         self.shutdown.store(true, Ordering::Relaxed);
+        // Wake up a debugging session that may still be active, since it will only look at the shutdown flag
+        // when it is about to start waiting for messages
+        self.lsp.lock().unwrap().invoke_shutdown_handlers();
         self.thread
             .unwrap()
             .join()
@@ -801,12 +804,24 @@ impl DebugSession {
         self.conn.as_ref().cloned()
     }
 
-    pub fn start(&mut self) -> MosResult<()> {
+    pub fn start(&mut self, shutdown: &AtomicBool) -> MosResult<()> {
         log::info!("DebugSession listening on port {}...", self.port);
-        let (debug_connection, _) = DebugConnection::tcp(&format!("127.0.0.1:{}", self.port))
-            .unwrap_or_else(|e| panic!("Couldn't listen on port {}: {}", self.port, e));
+        let debug_connection =
+            DebugConnection::tcp(&format!("127.0.0.1:{}", self.port), shutdown)
+                .unwrap_or_else(|e| panic!("Couldn't listen on port {}: {}", self.port, e));
+        let (debug_connection, _) = match debug_connection {
+            Some(c) => c,
+            None => {
+                log::debug!("Shutdown requested while waiting for a debugger to connect.");
+                return Ok(());
+            }
+        };
         self.conn = Some(Arc::new(debug_connection));
         let lsp_shutdown_receiver = self.lsp.lock().unwrap().add_shutdown_handler();
+        if shutdown.load(Ordering::Relaxed) {
+            // The shutdown handlers may already have been invoked before we registered ours
+            return Ok(());
+        }
 
         loop {
             let mut sel = Select::new();
